@@ -78,7 +78,9 @@ class Ctx:
         h = hashlib.sha1((signature + canon(replay)).encode()).hexdigest()[:10]
         path = os.path.join(env.VERIF, 'replay', f'{self.prop}-{h}.json')
         doc = dict(property=self.prop, signature=signature, what=what, found_input=found_input, seed=self.seed,
-                   replay_cmd=f'./check {self.prop} --replay {path}', **replay)
+                   replay_cmd=f'./check {self.prop} --replay {path}')
+        for k, v in replay.items():
+            doc[k if k not in doc else 'case_' + k] = v
         json.dump(doc, open(path, 'w'), indent=1, default=str)
         self.violations.append(dict(signature=signature, what=what, path=path, found_input=found_input))
 
